@@ -593,6 +593,29 @@ def r5_recursive_shape(repo=None):
                         guarded = (sg < 0 and in_body) or (sg > 0 and not in_body)
                 if isinstance(anc, ast.stmt):
                     child = anc
+            if not guarded:
+                # normalised first: `if val is None: val = ""` in front of the call, in the same block, nothing assigned in between
+                stmt = c
+                par_ = wv.parents.get(stmt)
+                while par_ is not None and not isinstance(stmt, ast.stmt):
+                    stmt, par_ = par_, wv.parents.get(par_)
+                block = None
+                for fld in ("body", "orelse", "finalbody"):
+                    if par_ is not None and stmt in (getattr(par_, fld, None) or []):
+                        block = getattr(par_, fld)
+                if block is not None:
+                    before = block[:block.index(stmt)]
+                    for i_ in range(len(before) - 1, -1, -1):
+                        st_ = before[i_]
+                        if isinstance(st_, ast.If) and not st_.orelse and len(st_.body) == 1 and isinstance(st_.body[0], ast.Assign) \
+                                and len(st_.body[0].targets) == 1 and isinstance(st_.body[0].targets[0], ast.Name) \
+                                and st_.body[0].targets[0].id == data.id and pyfront.const(st_.body[0].value) == "":
+                            var, sg = _none_test(st_.test)
+                            if var == data.id and sg > 0:
+                                guarded = True
+                            break
+                        if any(isinstance(y, ast.Name) and y.id == data.id and isinstance(y.ctx, ast.Store) for y in ast.walk(st_)):
+                            break
             if guarded:
                 n_ok += 1
             else:
